@@ -9,7 +9,7 @@ the harness family is vacuous (machinery fault, exit 2).  Timeouts / OOM are
 import json, os, re, shutil, subprocess, time, hashlib
 
 VERIF = os.path.dirname(os.path.dirname(os.path.abspath(__file__)))
-KDIR = os.path.join(VERIF, 'k')
+KDIR = os.environ.get('VERIF_KDIR') or os.path.join(VERIF, 'k')
 WORK = os.path.join(VERIF, '.work')
 KBASE = os.path.join(WORK, 'kbase')
 
